@@ -1,5 +1,5 @@
 (* C01 — Parsing is total and safe: a tree for the whole input, or eval_error.
-   Property theorems only; each is closed by `exact` of a lemma proved in ParserBodies / ParserTheorems (grammar layer, by one induction on
+   Property theorems only; each is closed by `exact` of a lemma proved in ParserBodies / ParserTriviaProofs / ParserErrPosProofs / ParserFnameProofs / ParserTheorems (grammar layer, by one induction on
    the call-depth fuel over all 28 mutually recursive grammar functions) on top of LexProofs / LexLitProofs / ParserLexProofs (lexical layer,
    see Properties_Lex).  `parse A T K G` is ParserDefs.parse over the tables regenerated from /repo's working tree on every run
    (tools/translate/t_OperatorTable.py, t_Keywords.py, t_IntLadder.py); that this model computes what the compiled parser computes is the
@@ -9,9 +9,11 @@
    the C++ could leave defined behaviour or the eval_error discipline: `--m_position` / `m_position -= n` before `begin` (OOB_dec), a raw read
    `file_pos[i]`, `m_match_stack[i]`, `m_operators[i]`, `children[i]`, `front()` outside its container (OOB_read), std::out_of_range /
    std::invalid_argument leaving the Char_Parser (Foreign_out_of_range, Foreign_invalid_argument), a node constructor's `assert` on the number of children or a throw inside the
-   Char_Parser destructor (Terminate). *)
+   Char_Parser destructor (Terminate).
+   Contents: C01_safe, C01_terminates, C01_depth_*, C01_accounts (all inputs, `#!` included), C01_error_position, C01_no_leaked_nodes,
+   C01_fname_independent, C01_tables_ok. *)
 From Coq Require Import ZArith NArith List Bool String.
-From ChaiV Require Import NumDefs Ast LexDefs LexProofs LexLitProofs ParserLexProofs ParserDefs ParserProofs ParserBodies ParserTriviaProofs ParserTheorems.
+From ChaiV Require Import NumDefs Ast LexDefs LexProofs LexLitProofs ParserLexProofs ParserDefs ParserProofs ParserBodies ParserTriviaProofs ParserErrPosProofs ParserFnameProofs ParserTheorems.
 From ChaiV.Gen Require Import G_IntLadder G_Keywords G_OperatorTable.
 Import ListNotations.
 Local Open Scope string_scope.
@@ -80,29 +82,42 @@ Example C01_depth_equations : too_deep (rep 600 (bos "x = ") ++ bos "1") = true.
 Proof. vm_compute. auto. Qed.
 
 (* ---------------------------------------------------------------- C01_accounts
-   FULL STATEMENT (the repaired parse_internal):
-     parse bytes fname = Ok t ->  (kind t = File /\ the final cursor is at the end of the input) \/ (kind t = Noop /\ trivia_only bytes = true)
+   FULL STATEMENT (the repaired parse_internal), PROVED FOR EVERY BYTE STRING:
+     parse bytes fname = Ok t ->  (kind t = File /\ the final cursor is at the end of the input) \/ (t = THE Noop node /\ trivia_only bytes = true)
    with ParserDefs.trivia_only the independently written automaton (spaces, tabs, line ends, comments, annotations, shebang line).
-   PROVED at full strength for EVERY byte string that does not begin with the two bytes `#!` (C01_accounts): the proof relates the cursor to the
-   state of the specification automaton run over the bytes before it (ParserTriviaProofs: SkipComment / SkipWS move between "trivia boundaries",
-   every scanner and every grammar function that reports no match leaves the cursor on one -- for Num() this is the fix 3bd5fe4: before it,
-   `.1e` parsed to Noop), so a Noop root means the automaton accepts the whole buffer.
-   PROVED for all inputs (`_partial`): a normal result is a File node or THE location-less Noop node; in both cases the final cursor is at the end
-   of the input, the buffer is the caller's, line/col are right and the depth counter is back at 0.
-   MISSING for inputs that begin with `#!`: the lemma that the first Eol() of parse_internal's shebang loop, which starts on the `#`, skips
-   exactly that annotation line and then sees the line end or the end of the input (never `;`, never a byte the loop would step over with `++`).
+   The proof relates the cursor to the state of the specification automaton run over the bytes before it (ParserTriviaProofs: SkipComment / SkipWS
+   move between "trivia boundaries", every scanner and every grammar function that reports no match leaves the cursor on one -- for Num() this is
+   the fix 3bd5fe4: before it, `.1e` parsed to Noop), so a Noop root means the automaton accepts the whole buffer.
+   Inputs that begin with `#!` (parse_internal's loop `while (m_position.has_more() && !Eol()) ++m_position`): ParserTriviaProofs.shebang_loop_tb --
+   the first Eol() of the loop, entered on the `#`, skips exactly that annotation line (SkipWS_annotation) and then stands on the line end, which
+   Eol_ always consumes (fine_Eol_complete), or at the end of the input; it never sees `;` nor a byte the loop would step over with `++`, the loop
+   runs at most twice and leaves the cursor on a trivia boundary, after which the argument for the other inputs applies unchanged.
    Both directions are also checked by the oracle of tools/p_C01.py on every run (root Noop <=> the extracted trivia_only holds). *)
 Theorem C01_accounts : forall (bytes : list N) (fname : string) (t : pnode) (s' : state pstate),
-  no_shebang bytes ->
   parse_full A T K G bytes fname = Ok (t, s') ->
   (pn_kind t = Ast.KFile /\ idx (pos s') = List.length bytes) \/ (t = noop_node /\ trivia_only bytes = true).
 Proof. exact parse_gen_accounts. Qed.
 Print Assumptions C01_accounts.
-Theorem C01_accounts_partial : forall (bytes : list N) (fname : string) (t : pnode) (s' : state pstate),
+(* the statement as it stood before the `#!` lemma (inputs not beginning with `#!`), now a corollary *)
+Theorem C01_accounts_no_shebang : forall (bytes : list N) (fname : string) (t : pnode) (s' : state pstate),
+  no_shebang bytes ->
+  parse_full A T K G bytes fname = Ok (t, s') ->
+  (pn_kind t = Ast.KFile /\ idx (pos s') = List.length bytes) \/ (t = noop_node /\ trivia_only bytes = true).
+Proof. exact parse_gen_accounts_no_shebang. Qed.
+(* the shebang loop itself: from the `#` at the start of a well-formed cursor it ends (or throws) on a trivia boundary of the same buffer *)
+Theorem C01_shebang_line : forall (s : state pstate),
+  wf_pos (pos s) -> tstate_at (pos s) = TS_normal -> has_more (pos s) = true -> deref (pos s) = 35%N ->
+  post (loop (shebang_body A) tt s) (fun _ s' => wf_pos (pos s') /\ tb (pos s') /\ buf (pos s') = buf (pos s)).
+Proof. exact (shebang_loop_tb A white_gen_ok). Qed.
+Print Assumptions C01_shebang_line.
+(* in every normal result the final cursor is at the end of the caller's buffer, line/col are right and the depth counter is back at 0 *)
+Theorem C01_accounts_root : forall (bytes : list N) (fname : string) (t : pnode) (s' : state pstate),
   parse_full A T K G bytes fname = Ok (t, s') ->
   buf (pos s') = bytes /\ wf_pos (pos s') /\ idx (pos s') = List.length bytes /\ depth s' = 0%nat /\ (pn_kind t = Ast.KFile \/ t = noop_node).
 Proof. exact parse_gen_root. Qed.
-Print Assumptions C01_accounts_partial.
+Print Assumptions C01_accounts_root.
+(* old name of C01_accounts_root (it was the all-inputs fallback while C01_accounts needed `no_shebang`); cited by Properties_C20 *)
+Definition C01_accounts_partial := C01_accounts_root.
 (* malformed numeric literals are rejected, not dropped (they were before fix 3bd5fe4) *)
 Example C01_malformed_number_rejected :
   parse A T K G (bos ".1e") "F" = Err "Unparsed input" 1 1 /\ parse A T K G (bos "f(.1e)") "F" = Err "Incomplete function call" 1 3 /\ trivia_only (bos ".1e") = false.
@@ -112,8 +127,87 @@ Example C01_accounts_file : exists t s', parse_full A T K G (bos "x = 1 // c") "
 Proof. vm_compute. eexists. eexists. split; [reflexivity|]. split; reflexivity. Qed.
 Example C01_accounts_noop : exists s', parse_full A T K G (bos " /* c */ // d") "F" = Ok (noop_node, s') /\ trivia_only (bos " /* c */ // d") = true.
 Proof. vm_compute. eexists. split; reflexivity. Qed.
+(* inputs that begin with `#!`: a program after the shebang line parses to a File node with the cursor at the end; a `#!`-only / trivia-only
+   input gives the Noop node; a `#!` line is not a licence to drop text *)
+Example C01_accounts_shebang_file :
+  exists t s', parse_full A T K G (bos "#!/usr/bin/chai" ++ [10%N] ++ bos "x = 1") "F" = Ok (t, s') /\ pn_kind t = Ast.KFile /\ idx (pos s') = 21%nat.
+Proof. vm_compute. eexists. eexists. split; [reflexivity|]. split; reflexivity. Qed.
+Example C01_accounts_shebang_noop :
+  (exists s', parse_full A T K G (bos "#!/usr/bin/chai") "F" = Ok (noop_node, s') /\ idx (pos s') = 15%nat) /\ trivia_only (bos "#!/usr/bin/chai") = true
+  /\ (exists s', parse_full A T K G (bos "#!x" ++ [13%N; 10%N] ++ bos " /* c */ // d") "F" = Ok (noop_node, s'))
+  /\ trivia_only (bos "#!x" ++ [13%N; 10%N] ++ bos " /* c */ // d") = true.
+Proof. vm_compute. split; [eexists; split; reflexivity|]. split; [reflexivity|]. split; [eexists; reflexivity|reflexivity]. Qed.
+Example C01_accounts_shebang_unparsed : parse A T K G (bos "#!x" ++ [10%N] ++ bos ")") "F" = Err "Unparsed input" 2 1.
+Proof. vm_compute. reflexivity. Qed.
 Example C01_unparsed_input : parse A T K G (bos ")") "F" = Err "Unparsed input" 1 1.
 Proof. vm_compute. reflexivity. Qed.
+
+(* ---------------------------------------------------------------- C01_error_position
+   For EVERY byte string: when the parse ends in eval_error, the error either carries NO position (line = col = 0 is the one-argument
+   eval_error constructor; in the parser only the Char_Parser's escape-sequence errors use it: "Octal escape sequence out of range",
+   "Incomplete hex escape sequence", the unicode ones) or its line is the line of a cursor position inside the caller's buffer:
+   line = 1 + the number of line ends among the first i bytes for some i <= length, hence 1 <= line <= (number of line ends) + 1.
+   Errors of a nested `${...}` parse (another buffer) are rethrown by Quoted_String at the start of the string literal and are covered.
+   Proof: ParserErrPosProofs, one traversal of both layers with a line-only cursor invariant (preserved by `--` unconditionally).
+   NOT covered: the column (it needs the decrement side conditions of C20 along the error paths, which `post` does not track). *)
+Theorem C01_error_position : forall (bytes : list N) (fname : string) (msg : string) (line col : Z),
+  parse A T K G bytes fname = Err msg line col ->
+  (line = 0 /\ col = 0)%Z \/
+  ((exists i, (i <= List.length bytes)%nat /\ line = (1 + count_nl (firstn i bytes))%Z) /\ (1 <= line <= count_nl bytes + 1)%Z).
+Proof. exact parse_gen_error_position. Qed.
+Print Assumptions C01_error_position.
+(* both cases occur: a positioned error on the second of two lines, an error of a nested parse rethrown at the string literal, and the
+   positionless escape-sequence errors *)
+Example C01_error_position_cases :
+  parse A T K G (bos "x" ++ [10%N] ++ bos "y = )") "F" = Err "Incomplete equation" 2 5
+  /\ parse A T K G (bos "x" ++ [10%N; 34%N] ++ bos "a${1 +}" ++ [34%N]) "F" = Err "Error: ""Incomplete '+' expression"" in 'instr eval'  at (1, 4)" 2 1
+  /\ parse A T K G (bos "'\400'") "F" = Err "Octal escape sequence out of range" 0 0
+  /\ parse A T K G (bos "x" ++ [10%N; 10%N; 34%N] ++ bos "a\xg" ++ [34%N]) "F" = Err "Incomplete hex escape sequence" 0 0.
+Proof. vm_compute. auto. Qed.
+
+(* ---------------------------------------------------------------- C01_no_leaked_nodes
+   For EVERY byte string: a successful parse ends with exactly the root on the match stack -- every other node that was pushed has been folded
+   into the tree by build_match or dropped by a roll-back (Map_Pair / Value_Range) -- and with the caller's file name in place.  (The C++ then
+   moves the root out and clears the vector; the same holds of every nested parse_instr_eval, ParserBodies.Rroot.) *)
+Theorem C01_no_leaked_nodes : forall (bytes : list N) (fname0 : string) (t : pnode) (s' : state pstate),
+  parse_full A T K G bytes fname0 = Ok (t, s') -> stk (user s') = [t] /\ fname (user s') = fname0.
+Proof. exact parse_gen_stack. Qed.
+Print Assumptions C01_no_leaked_nodes.
+Example C01_no_leaked_nodes_rollback :
+  exists t s', parse_full A T K G (bos "f(1, [2, 3], [4 : 5])") "F" = Ok (t, s') /\ stk (user s') = [t] /\ pn_kind t = Ast.KFile.
+Proof. vm_compute. eexists. eexists. split; [reflexivity|]. split; reflexivity. Qed.
+
+(* ---------------------------------------------------------------- C01_fname_independent
+   For EVERY byte string and ANY two file names f1, f2: the two parses end in the same class of outcome; an eval_error is the same error
+   (reason, line, column: no error text of the parser contains the caller's file name -- the one file name that does appear in a text is the
+   constant 'instr eval' of a nested parse); two trees are related by ParserFnameProofs.nrel f1 f2: node by node the same kind, text,
+   location and number of children, the stored file name equal or (f1 against f2), the constant payload equal or (the string f1 against
+   the string f2: a `__FILE__` constant).  Hence the tree stripped of file names and payloads (`shape`) does not depend on the file name.
+   The two runs are in lock step throughout (same cursor, depth counter, number of grammar-function invocations: parse_full_fname_independent).
+   Proof: ParserFnameProofs, a relational traversal of both layers (the functions that read the match stack -- build_match, __FUNC__ /
+   __CLASS__, Class, Inline_Container, Map_Pair / Value_Range roll-back, the method-call fix-up -- look at kinds, texts, locations only). *)
+Theorem C01_fname_independent : forall (bytes : list N) (f1 f2 : string),
+  match parse A T K G bytes f1, parse A T K G bytes f2 with
+  | Ok t1, Ok t2 => nrel f1 f2 t1 t2
+  | Err r1 l1 c1, Err r2 l2 c2 => r1 = r2 /\ l1 = l2 /\ c1 = c2
+  | Crash k1, Crash k2 => k1 = k2
+  | OutOfFuel, OutOfFuel => True
+  | _, _ => False
+  end.
+Proof. exact parse_gen_fname_independent. Qed.
+Print Assumptions C01_fname_independent.
+Theorem C01_fname_independent_shape : forall (bytes : list N) (f1 f2 : string) (t1 : pnode),
+  parse A T K G bytes f1 = Ok t1 -> exists t2, parse A T K G bytes f2 = Ok t2 /\ shape t2 = shape t1.
+Proof. exact parse_gen_shape_fname_independent. Qed.
+Theorem C01_fname_independent_error : forall (bytes : list N) (f1 f2 : string) (msg : string) (line col : Z),
+  parse A T K G bytes f1 = Err msg line col -> parse A T K G bytes f2 = Err msg line col.
+Proof. exact parse_gen_error_fname_independent. Qed.
+(* the relation is not the identity: `__FILE__` and the stored file names do differ; an in-string evaluation keeps 'instr eval' in both *)
+Example C01_fname_independent_differs :
+  (exists t1 t2, parse A T K G (bos "__FILE__ + ""${__FILE__}""") "A" = Ok t1 /\ parse A T K G (bos "__FILE__ + ""${__FILE__}""") "B" = Ok t2
+                 /\ t1 <> t2 /\ shape t1 = shape t2 /\ pn_file t1 = "A" /\ pn_file t2 = "B")
+  /\ parse A T K G (bos "x = )") "A" = parse A T K G (bos "x = )") "B".
+Proof. vm_compute. split; [|reflexivity]. eexists. eexists. split; [reflexivity|]. split; [reflexivity|]. split; [discriminate|]. auto. Qed.
 
 (* ---------------------------------------------------------------- the regenerated tables satisfy the side conditions the proofs need *)
 Theorem C01_tables_ok : tables_ok G = true /\ (forall c, in_alpha (a_id A) c = true -> in_alpha (a_keyword A) c = true).
